@@ -285,7 +285,9 @@ def enumerate_seqs(maxlen, tags, full, hist, minlen=1):
     return out
 
 
-def random_seq(g, idx, maxlen, hist):
+def random_seq(g, idx, maxlen, hist, TAGS=TAGS, churn=False):
+    """TAGS: held types used (a size class for the address-reuse runs); churn: mostly replace / destroy /
+    re-create contents and cast, on few containers, so that freed holder blocks are reused at once"""
     r = g.r
     n = r.randint(1, maxlen)
     sp = Spec()
@@ -322,7 +324,8 @@ def random_seq(g, idx, maxlen, hist):
             a = r.choice(live)
             heldtag = sp.slots[a][0] if sp.slots[a] != EMPTY else None
             tag = heldtag if (heldtag and r.random() < 0.6) else r.choice(TAGS)
-            kind = r.choice(["aa", "aa", "aa", "av", "av", "rs", "sw", "ds", "pk", "pk", "pr", "vc", "vc", "pc"])
+            kind = r.choice(["aa", "av", "av", "av", "rs", "rs", "sw", "ds", "ds", "pk", "vc", "vc", "pc"] if churn else
+                            ["aa", "aa", "aa", "av", "av", "rs", "sw", "ds", "pk", "pk", "pr", "vc", "vc", "pc"])
             if kind == "aa":
                 b = a if r.random() < 0.2 else r.choice(live)
                 tok = "aa:%d:%d:%s" % (a, b, r.choice(CATS))
@@ -388,26 +391,52 @@ def run_harness_limited(binary, lines, max_crashes, timeout=900):
     return outs, logs, lsan
 
 
-def run_both(binary, lines, workers, max_crashes=12):
-    """harness and driver over `lines`, split over worker processes"""
+def build_plain():
+    """The same harness without any sanitizer (any.h is header-only: no library needed), under
+    $BFL_BUILD_DIR/plain/.  AddressSanitizer keeps freed blocks in quarantine, so a holder is never
+    allocated at the address of a destroyed one there; with glibc malloc a freed block of the same size
+    class is handed out again at once.  Address-reuse (ABA) defects — anything keyed on a raw holder or
+    container address that outlives the object — only show on this build."""
+    src = vlib.VERIF / "harness" / "h_any.cpp"
+    outdir = vlib.BUILD / ("plain-" + __import__("hashlib").sha256(str(vlib.VERIF).encode()).hexdigest()[:8])
+    outdir.mkdir(parents=True, exist_ok=True)
+    binary, dep = outdir / "h_any", outdir / "h_any.d"
+    with vlib.locked("h-plain-h_any"):
+        if vlib._deps_stale(binary, dep, [src]):
+            cmd = ["g++", "-std=c++11", "-O1", "-g1", "-UNDEBUG", "-DBFL_VERIF", "-DEIGEN_INITIALIZE_MATRICES_BY_ZERO",
+                   "-I", str(vlib.REPO / "src/BayesFilters/include"), "-I", vlib.EIGEN_INC, "-I", str(vlib.VERIF / "harness"),
+                   "-MMD", "-MF", str(dep), str(src), "-o", str(binary)]
+            rc, o, e = vlib.sh(cmd)
+            if rc != 0:
+                raise vlib.BuildError("plain harness h_any failed to compile:\n%s" % e[-6000:])
+    return binary
+
+
+def run_both(binaries, lines, workers, max_crashes=12):
+    """every harness build in `binaries` ({kind: path}) and the driver over `lines`, split over worker
+    processes.  Returns ({kind: (outputs, logs, lsan)}, driver outputs)."""
     if not lines:
-        return [], [], {}, False
+        return {k: ([], {}, False) for k in binaries}, []
     per = max(200, (len(lines) + workers - 1) // workers)
     chunks = [(i, lines[i:i + per]) for i in range(0, len(lines), per)]
     with ThreadPoolExecutor(max_workers=workers) as ex:
-        hf = [ex.submit(run_harness_limited, binary, c, max(2, max_crashes // len(chunks))) for _, c in chunks]
+        hf = {k: [ex.submit(run_harness_limited, b, c, max(2, max_crashes // len(chunks))) for _, c in chunks] for k, b in binaries.items()}
         df = [ex.submit(vlib.run_driver, c) for _, c in chunks]
-        hres = [f.result() for f in hf]
+        hres = {k: [f.result() for f in fs] for k, fs in hf.items()}
         dres = [f.result() for f in df]
-    hout, dout, logs, lsan = [], [], {}, False
-    for (off, _), (o, lg, ls) in zip(chunks, hres):
-        for k, v in lg.items():
-            logs[off + k] = v
-        hout.extend(o)
-        lsan = lsan or ls
+    res = {}
+    for k, rs in hres.items():
+        hout, logs, lsan = [], {}, False
+        for (off, _), (o, lg, ls) in zip(chunks, rs):
+            for kk, v in lg.items():
+                logs[off + kk] = v
+            hout.extend(o)
+            lsan = lsan or ls
+        res[k] = (hout, logs, lsan)
+    dout = []
     for d in dres:
         dout.extend(d)
-    return hout, dout, logs, lsan
+    return res, dout
 
 
 def classify(line, h, d, want):
@@ -490,16 +519,33 @@ def shrink(binary, line, key):
     return ln, h[0]
 
 
+def find_context(binary, before, line, key):
+    """smallest suffix of the sequences that preceded `line` in its process after which it fails the same way"""
+    want = spec_line(line)
+    k = 1
+    while before and k <= 2 * len(before):
+        pre = before[-k:]
+        outs, _, _ = run_harness_limited(binary, pre + [line], 1)
+        h = outs[-1] if len(outs) == len(pre) + 1 else None
+        if h is not None and any(p[0] == "prop" and (p[1] == key or key.startswith("crash") and p[1].startswith("crash"))
+                                 for p in classify(line, h, want, want)):
+            return pre
+        if k >= len(before):
+            break
+        k *= 2
+    return []
+
+
 def run(ctx):
     ctx.proof_stage()
-    binary = vlib.build_harness("h_any")
+    BIN = {"asan": vlib.build_harness("h_any"), "plain": build_plain()}
     workers = max(1, min(8, vlib.NPROC // 2))
     hist = {}
     acc = {"prop_bad": [], "corr_bad": [], "mech": [], "ran": 0, "notrun": 0, "ops": 0, "style": {}, "distinct": set(),
-           "nontrivial": set(), "samples": [], "tgen": 0.0, "trun": 0.0, "skipped_blocks": []}
+           "nontrivial": set(), "samples": [], "tgen": 0.0, "trun": 0.0, "skipped_blocks": [], "runs": {}}
 
-    def process(block_name, cases):
-        """cases: list of (line, expected masked output, style); run, compare, account, forget"""
+    def process(block_name, cases, builds=("asan", "plain")):
+        """cases: list of (line, expected masked output, style); run on every build in `builds`, compare, account, forget"""
         if not cases:
             return
         if acc["prop_bad"] or acc["corr_bad"]:
@@ -507,13 +553,31 @@ def run(ctx):
             return
         t1 = time.time()
         lines = [c[0] for c in cases]
-        hout, dout, logs, lsan = run_both(binary, lines, workers)
+        res, dout = run_both({k: BIN[k] for k in builds}, lines, workers)
         acc["trun"] += time.time() - t1
-        flagged = False
         acc["samples"].append(lines[len(lines) // 2])
+        for b in builds:
+            compare(b, b == builds[0], cases, lines, dout, *res[b])
+
+    def compare(build, first, cases, lines, dout, hout, logs, lsan):
+        flagged = False
         for idx, ((line, want, style), h, d) in enumerate(zip(cases, hout, dout)):
             if h is None:
                 acc["notrun"] += 1
+                continue
+            acc["runs"][build] = acc["runs"].get(build, 0) + 1
+            if not first:
+                if h == d and mask(h) == want:
+                    continue
+                if mask(h) == mask(d) == want:
+                    continue
+                if _RVAL.search(line) and not h.startswith("crash") and mask(h) == spec_line(line, rmove=True):
+                    continue
+                for kind, key, what in classify(line, h, d, want):
+                    key = key + "@" + build
+                    what = "[%s build] %s" % (build, what)
+                    (acc["prop_bad"] if kind == "prop" else acc["corr_bad"]).append(
+                        (key, what, line, h, d, want, logs.get(idx, ""), build, lines[max(0, idx - 64):idx]))
                 continue
             acc["ran"] += 1
             acc["style"][style] = acc["style"].get(style, 0) + 1
@@ -533,40 +597,44 @@ def run(ctx):
                 acc["mech"].append((line, h, d))      # the rvalue value cast moves the held object out: allowed
                 continue
             for kind, key, what in classify(line, h, d, want):
-                (acc["prop_bad"] if kind == "prop" else acc["corr_bad"]).append((key, what, line, h, d, want, logs.get(idx, "")))
+                if build != "asan":
+                    key, what = key + "@" + build, "[%s build] %s" % (build, what)
+                (acc["prop_bad"] if kind == "prop" else acc["corr_bad"]).append(
+                    (key, what, line, h, d, want, logs.get(idx, ""), build, lines[max(0, idx - 64):idx]))
                 flagged = flagged or kind == "prop"
         if lsan and not flagged:
             k = max(logs) if logs else 0
             acc["prop_bad"].append(("crash:lsan", "LeakSanitizer reported a leak at process exit although every sequence balanced its allocations",
-                                    lines[min(k, len(lines) - 1)], "crash:lsan", "", "", logs.get(k, "")))
+                                    lines[min(k, len(lines) - 1)], "crash:lsan", "", "", logs.get(k, ""), build, []))
 
-    def enum_block(name, maxlen, tags, full, minlen=1):
+    def enum_block(name, maxlen, tags, full, minlen=1, builds=("asan", "plain")):
         t1 = time.time()
         seqs = enumerate_seqs(maxlen, tags, full, hist, minlen)
         acc["tgen"] += time.time() - t1
         n = len(seqs)
-        process(name, [(l, w, name) for l, w in seqs])
+        process(name, [(l, w, name) for l, w in seqs], builds)
         return n
 
-    def random_block(g, first, count):
+    def random_block(g, first, count, tags=TAGS, churn=False, name="random"):
         t1 = time.time()
         cases = []
         for i in range(count):
-            ln = random_seq(g, first + i, 40, hist)
-            cases.append((ln, spec_line(ln), "random"))
+            ln = random_seq(g, first + i, 40, hist, tags, churn)
+            cases.append((ln, spec_line(ln), name))
         acc["tgen"] += time.time() - t1
-        process("random", cases)
+        process(name, cases)
 
     corpus, rules, n_full2, nrand_a, nrand_b = [], [], 0, 0, 0
     if ctx.replay:
         # re-run the operation sequence recorded in a replay file
         import json
-        line = json.load(open(ctx.replay)).get("replay", {}).get("input_line")
-        if line:
+        rp = json.load(open(ctx.replay)).get("replay", {})
+        rlines = rp.get("input_lines") or ([rp["input_line"]] if rp.get("input_line") else [])
+        for line in rlines:
             sp = Spec()
             for tok in line.split()[3:]:
                 sp.apply(tok, hist)
-            process("replay", [(line, spec_line(line), "replay")])
+        process("replay", [(line, spec_line(line), "replay") for line in rlines])
         rules.append("replay of %s" % ctx.replay)
     else:
         # ---- first: corpus, full alphabet to length 2, reduced alphabet to length 3, some random sequences
@@ -592,11 +660,26 @@ def run(ctx):
         companions = rot
         n4 = 0
         for o in companions:
+            # the probe shares its malloc size class with int and double only: the unsanitized run adds nothing for string / matrix here
+            bl = ("asan", "plain") if o in ("i", "d") else ("asan",)
             if o != rot[0]:
-                enum_block("reduced<=3[p,%s]" % o, 3, ["p", o], False)
-            n4 += enum_block("reduced=4[p,%s]" % o, 4, ["p", o], False, minlen=4)
+                enum_block("reduced<=3[p,%s]" % o, 3, ["p", o], False, builds=bl)
+            n4 += enum_block("reduced=4[p,%s]" % o, 4, ["p", o], False, minlen=4, builds=bl)
         rules.append("reduced alphabet, for each companion type T in {%s}, held types {probe,T}: all sequences of length 1..4 (%d of length 1..3 for the "
                      "first T, %d of length 4 in total)" % (", ".join(TAG_NAME[o] for o in companions), n_red3, n4))
+        # address reuse: held types of one allocation size class (holder<int|double|probe>: 16 bytes,
+        # holder<string|MatrixXd>: 40 / 32 bytes, one malloc bin each), so that a new holder of another type
+        # lands on the block of a destroyed one.  Only meaningful without ASan's quarantine.
+        n_reuse = 0
+        for cls in (["i", "d"], ["s", "m"]):
+            n_reuse += enum_block("reuse<=4[%s]" % ",".join(cls), 4, cls, False, builds=("plain",))
+        rules.append("address reuse, on the build without sanitizers only: reduced alphabet over held types {int,double} and over "
+                     "{string,matrix} (same malloc size class; the pairs with the probe are in the blocks above): all %d sequences of length 1..4" % n_reuse)
+        nchurn = 150 if ctx.quick() else 2000
+        gc = ctx.gen("any-churn")
+        random_block(gc, 0, nchurn, ["i", "d", "p"], True, "random-churn[i,d,p]")
+        random_block(gc, nchurn, nchurn, ["s", "m"], True, "random-churn[s,m]")
+        rules.append("%d seeded random sequences per size class that mostly replace / reset / destroy / re-create contents and cast" % nchurn)
         if ctx.quick():
             nrand_b = 340
         else:
@@ -613,22 +696,30 @@ def run(ctx):
 
     # ---- decision: property failures carry a concrete (shrunk) operation sequence
     seen = set()
-    for key, what, line, h, d, want, log in prop_bad:
+    for key, what, line, h, d, want, log, build, before in prop_bad:
         if key in seen or len(seen) >= 6:
             continue
         seen.add(key)
-        sline, sh = shrink(binary, line, key)
+        basekey = key.split("@")[0]
+        sline, sh = shrink(BIN[build], line, basekey)
+        data = {"harness": "h_any", "build": build}
         if sh is None:
+            # does not fail when run alone in a fresh process: the failure depends on process state left by the
+            # sequences run before it (heap layout, caches inside the library): record those too
             sline, sh = line, h
+            pre = find_context(BIN[build], before, line, basekey)
+            if pre:
+                data["input_lines"] = pre + [line]
+                what += " (only after the %d preceding sequences of the same process, recorded in the replay)" % len(pre)
         else:
             again = [p for p in classify(sline, sh, spec_line(sline), spec_line(sline)) if p[0] == "prop"]
             if again:
-                what = again[0][2]
-        ctx.violation(key, "any: %s — sequence: %s" % (what, " ".join(sline.split()[3:])[:300]),
-                      {"harness": "h_any", "input_line": sline, "observed": sh[:3000], "expected": spec_line(sline)[:3000],
-                       "found_as": line[:600], "sanitizer_log": log[-1500:]})
+                what = ("[%s build] " % build if build != "asan" else "") + again[0][2]
+        data.update({"input_line": sline, "observed": sh[:3000], "expected": spec_line(sline)[:3000],
+                     "found_as": line[:600], "sanitizer_log": log[-1500:]})
+        ctx.violation(key, "any: %s — sequence: %s" % (what, " ".join(sline.split()[3:])[:300]), data)
     if corr_bad and not prop_bad:
-        key, what, line, h, d, want, log = corr_bad[0]
+        key, what, line, h, d, want, log, build, before = corr_bad[0]
         ctx.violation("correspondence:" + key,
                       "model and implementation disagree (%d cases) while every specification predicate holds: %s" % (len(corr_bad), what),
                       {"harness": "h_any", "correspondence": "BFL.AnyBox.step vs bfl::any::any", "input_line": line,
@@ -640,7 +731,9 @@ def run(ctx):
         "operations_executed": acc["ops"],
         "exhaustive": bool(complete),
         "rule": "operation sequences on a pool of %d containers, every sequence started from the all-destroyed pool and ended by destroying "
-                "all containers (live probe count 0, net allocations 0, ASan/UBSan/LSan clean). Exhaustive parts: (1) full alphabet (every slot, "
+                "all containers (live probe count 0, net allocations 0). Every case runs on two builds of the same harness: ASan+UBSan+LSan, and "
+                "no sanitizer at all (glibc malloc reuses freed blocks at once, which ASan's quarantine prevents: address-reuse defects); the same "
+                "predicates are evaluated on both, a crash on either is a violation. Exhaustive parts: (1) full alphabet (every slot, "
                 "argument categories T&/const T&/T&&/const T&&, member and free swap, the four value-cast forms, pointer casts with mutable/const/"
                 "null operand, mutation through the pointer form and through the reference form any_cast<T&>, all five held types): all %d sequences of valid operations of length 1..2; "
                 "(2) %s. Reduced alphabet = constructions only into the lowest destroyed slot (destroyed slots carry no state), categories const T&/T&& "
@@ -654,6 +747,7 @@ def run(ctx):
         "samples": acc["samples"][:8],
         "style_histogram": acc["style"], "branch_histogram": dict(sorted(hist.items())),
         "traces_validated_against_impl": acc["ran"],
+        "runs_per_build": acc["runs"],
         "cases_not_run_after_crash_limit": acc["notrun"],
         "model_vs_impl_disagreements": len(corr_bad), "property_failures_on_impl": len(prop_bad),
         "sanitizer_crashes": sum(1 for p in prop_bad if p[0].startswith("crash")),
